@@ -1,7 +1,7 @@
 (** Correspondence evaluator for C19: run the model on the graphs the harness
     fed to shanhu.io/g/dags and compare with what the real code returned. *)
 From Coq Require Import List NArith ZArith Bool Arith.
-From Verif Require Import Dag.Model Gen.DagsSrc.
+From Verif Require Import Dag.Model Dag.Ops Gen.DagsSrc.
 Import ListNotations.
 
 Fixpoint leqb {A} (eqb : A -> A -> bool) (a b : list A) : bool :=
@@ -114,7 +114,115 @@ Fixpoint mask_row (n : nat) (mask : N) (i j : nat) : list name :=
 Definition graph_of_mask (n : nat) (mask : N) : graph :=
   map (fun i => (N.of_nat i, mask_row n mask i n)) (seq 0 n).
 
+(** * Round 3: Remove / SubGraph / Rename / Closure on the graph of the case *)
+
+(** CheckDAG's verdict as a class: 0 ok, 1 missing, 2 circle, 9 other *)
+Definition vclass (v : verdict) : N :=
+  match v with VOk _ => 0 | VMissing => 1 | VCircle _ => 2 | _ => 9 end%N.
+
+Record gobs := mkG { go_g : graph; go_v : N }.
+
+Definition by_key (g : graph) : graph := sort_by entry_lt g.
+
+Definition gobs_ok (sh : N -> list name -> list name) (g' : graph) (o : gobs) : bool :=
+  leqb entry_eqb (by_key g') (go_g o) && N.eqb (vclass (check_dag sh g')) (go_v o).
+
+(** A call sequence on ONE Map object: [Map.Reverse] mirrors the layer
+    numbers the Map holds and swaps its orientation, [LayoutMap] lays out the
+    current orientation starting from the layer numbers the Map holds and
+    leaves the pushed ones behind. *)
+Inductive sop :=
+| SRev
+| SLay (xy : list (name * (nat * Z))) (w : nat) (h : Z).
+
+Definition xs_of (v : view) (ks : list name) : lays :=
+  map (fun k => (k, fst (aget (0, 0%Z) (v_nodes v) k))) ks.
+
+Definition view_eqb (v : view) (xy : list (name * (nat * Z))) (w : nat) (h : Z) : bool :=
+  Nat.eqb (v_width v) w && Z.eqb (v_height v) h &&
+  Nat.eqb (length (v_nodes v)) (length xy) &&
+  forallb (fun e => let p := aget (0, 0%Z) (v_nodes v) (fst e) in
+                    Nat.eqb (fst p) (fst (snd e)) && Z.eqb (snd p) (snd (snd e))) xy.
+
+Fixpoint run_seq (P : lparams) (m mr : dmap) (flip : bool) (L : lays) (ops : list sop) : bool :=
+  match ops with
+  | [] => true
+  | SRev :: r => run_seq P m mr (negb flip) (mirror_lays (m_nlayer m) L) r
+  | SLay xy w h :: r =>
+      match layout_from P (if flip then mr else m) L with
+      | VwOk v => view_eqb v xy w h && run_seq P m mr flip (xs_of v (keys (m_g m))) r
+      | _ => false
+      end
+  end.
+
+Record opsobs := mkO {
+  oo_rm : name; oo_rm_obs : gobs;
+  oo_sub : list name; oo_sub_obs : gobs;
+  oo_ren : list (name * name);          (* key -> new name *)
+  oo_err : option name;                 (* the key whose callback returns an error *)
+  oo_inj : bool;
+  oo_ren_res : N;                       (* 0 a graph, 1 the callback's error, 2 "missing in keys" *)
+  oo_ren_obs : gobs;
+  oo_clo : list name;
+  oo_clo_panic : bool;
+  oo_clo_nodes : list nobs;             (* x, y, view lists unused *)
+  oo_clo_n : nat * nat * nat;           (* Nedge, Ncrit, Nlayer *)
+  oo_seq_rev : bool;                    (* the call sequence starts with RevLayout (else NewMap) *)
+  oo_seq : list sop;                    (* then: Map.Reverse / LayoutMap with the view it returned *)
+}.
+
+Definition sets_eqb (a b : nobs) : bool :=
+  N.eqb (o_name a) (o_name b) &&
+  names_eqb (o_ins a) (o_ins b) && names_eqb (o_outs a) (o_outs b) &&
+  names_eqb (o_ai a) (o_ai b) && names_eqb (o_ao a) (o_ao b) &&
+  names_eqb (o_ci a) (o_ci b) && names_eqb (o_co a) (o_co b).
+
+Definition map_sets (m : dmap) : list nobs :=
+  let g := m_g m in
+  map (fun k => mkN k (sort_names (ins g k)) (sort_names (outs g k))
+                    (sort_names (sget (m_ai m) k)) (sort_names (sget (m_ao m) k))
+                    (sort_names (m_crit_ins m k)) (sort_names (m_crit_outs m k)) [] [] 0 0%Z)
+      (sort_names (keys g)).
+
+Definition check_ops (sh : N -> list name -> list name) (g : graph) (oo : opsobs) : bool :=
+  gobs_ok sh (g_remove g (oo_rm oo)) (oo_rm_obs oo) &&
+  gobs_ok sh (g_subgraph (fun k => memb k (oo_sub oo)) g) (oo_sub_obs oo) &&
+  match g_rename (aget 0%N (oo_ren oo))
+                 (fun k => match oo_err oo with Some e => N.eqb k e | None => false end) g with
+  | RnErrF => N.eqb (oo_ren_res oo) 1
+  | RnMissing => N.eqb (oo_ren_res oo) 2
+  | RnOk g' => N.eqb (oo_ren_res oo) 0 &&
+               (if oo_inj oo then gobs_ok sh g' (oo_ren_obs oo) else true)
+  end &&
+  match new_map sh g with
+  | MOk m =>
+      match closure sh m (oo_clo oo) with
+      | None => oo_clo_panic oo
+      | Some (MOk m') =>
+          negb (oo_clo_panic oo) &&
+          leqb sets_eqb (map_sets m') (oo_clo_nodes oo) &&
+          (let '(e, c, l) := oo_clo_n oo in
+           Nat.eqb (nedge (m_g m')) e && Nat.eqb (ncrit (m_g m') (m_ao m')) c && Nat.eqb (m_nlayer m') l)
+      | Some (MErr _) => false
+      end &&
+      (* the call sequence on one Map object *)
+      match oo_seq oo, new_map sh (rev_graph sh g) with
+      | [], _ => true
+      | ops, MOk mr =>
+          if oo_seq_rev oo then
+            match layout_from gen_params mr (m_lay0 mr) with
+            | VwOk v => run_seq gen_params m mr false
+                          (mirror_lays (m_nlayer m) (xs_of v (keys g))) ops
+            | _ => false
+            end
+          else run_seq gen_params m mr false (m_lay0 m) ops
+      | _, MErr _ => false
+      end
+  | MErr _ => true
+  end.
+
 Inductive ccase :=
+| CGO (g : graph) (o : obs) (r2 : option graph) (oo : opsobs)
 | CG (g : graph) (o : obs) (r2 : option graph)   (* r2 = None: equal to g *)
 | CM (n : nat) (mask : N) (o : obs).             (* exhaustive families; r2 equal to g *)
 
@@ -126,6 +234,8 @@ Definition check_graph (g : graph) (o : obs) (r2 : graph) : bool :=
 
 Definition check_case (c : ccase) : bool :=
   match c with
+  | CGO g o r2 oo => check_graph g o (match r2 with Some r => r | None => g end) &&
+                     check_ops sh_id g oo && check_ops sh_rev g oo
   | CG g o r2 => check_graph g o (match r2 with Some r => r | None => g end)
   | CM n mask o => let g := graph_of_mask n mask in check_graph g o g
   end.
